@@ -86,7 +86,7 @@ CLAIMS.update({
         "MatchType::match_glyph implements the OpenType lookup-flag rule (ignore bases/ligatures/marks, mark attachment type, mark filtering "
         "set) for every flag word over a GDEF with symbolic glyph classes, attachment classes and filtering set; MatchContext::matches "
         "(by glyph id, by class, by coverage; backtrack/input/lookahead 1-1-1, 2-0-1, 0-2-2) equals a reference matcher over non-skipped glyphs "
-        "for every run of 5 glyphs, position and flag; find_prev/next/nth/first and Ligature::matches likewise; FeatureVariations: first matching record wins, a condition set is a conjunction, axis ranges are inclusive at both ends, unknown condition formats and missing axes never match (2 records, 2 conditions, 2 axes, every 2.14 value); GSUB subtables parsed from bytes with the coverage cache stubbed to an uncached read: SingleSubst formats 1 (delta modulo 65536) and 2, MultipleSubst, AlternateSubst and LigatureSubst return the sequence / alternates / ligature set of the glyph's coverage index with every glyph value symbolic.",
+        "for every run of 5 glyphs, position and flag; find_prev/next/nth/first and Ligature::matches likewise; FeatureVariations: first matching record wins, a condition set is a conjunction, axis ranges are inclusive at both ends, unknown condition formats and missing axes never match (2 records, 2 conditions, 2 axes, every 2.14 value); GSUB subtables parsed from bytes with the coverage cache stubbed to an uncached read: SingleSubst formats 1 (delta modulo 65536) and 2, MultipleSubst, AlternateSubst and LigatureSubst return the sequence / alternates / ligature set of the glyph's coverage index with every glyph value symbolic; Context format 1 tries the rules of the glyph's rule set in font order and returns the lookup records of the first rule that matches; ReverseChainSingleSubst substitutes a covered glyph between matching backtrack/lookahead glyphs; through hook H9 the application kernels singlesubst (first covering subtable wins, Direct origin, vertical-alternate flag under vert/vrt2), alternatesubst (requested alternate or no change) and ligature selection (first ligature of the set, in font order, whose components match).",
         "Outside (the larger part of the property): lookup ordering, per-type application loops, nested lookups, extension/reverse-chaining lookups, "
         "feature variations, ligature application - all behind LayoutCache (std HashMap) or Vec<RawGlyph> surgery. Seeded changes in those areas are missed.",
         "DESIGN.md section 6, C04", TECH_KANI),
@@ -94,7 +94,7 @@ CLAIMS.update({
         "Bounded solver verdict for value-record, anchor and kern decoding - NOT for GPOS lookup application or pen-position resolution: every "
         "valueFormat 0..0xFF decodes into the right Adjust members, consumes 2 bytes per set bit and ValueFormat::size equals that stride; "
         "VariationIndex device tables are followed at any offset inside the parent table; Anchor formats 1-3; kern format 0 (2 and 3 sorted "
-        "pairs) equals a linear scan for every glyph pair; kern format 2 class lookup returns the cell at leftClass+rightClass or None; GPOS subtables parsed from bytes with the coverage/classdef cache stubbed to an uncached read: SinglePos formats 1/2, PairPos format 1 (pair sets searched by second glyph) and format 2 (2x2 class matrix cell of (class1(glyph1), class2(glyph2)) for covered first glyphs), CursivePos (exit anchor of the first, entry anchor of the second glyph, NULL offsets = no connection), MarkBasePos (base anchor of the mark's class + the mark's own anchor; NULL base anchor = none), for every glyph id, class value, anchor and value field and every query pair; through hook H8 the application kernels of gpos.rs: the candidate (base, mark) and (mark, mark) pairs offered over runs of 4 glyphs for every mark pattern, ligature component number and ligature flag (a mark is only offered the nearest preceding non-mark; mark-to-mark only inside one run of marks and only for the same component or a ligature), cursivepos (the FIRST glyph is attached to the second with the lookup's RIGHT_TO_LEFT bit, entry anchor of the second and exit anchor of the first), pairpos (value record 1 -> first glyph, 2 -> second; xAdvance into kerning, placements into a Distance) and markligpos (the component record is chosen by the MARK's ligature component number; out-of-range components attach nothing).",
+        "pairs) equals a linear scan for every glyph pair; kern format 2 class lookup returns the cell at leftClass+rightClass or None; GPOS subtables parsed from bytes with the coverage/classdef cache stubbed to an uncached read: SinglePos formats 1/2, PairPos format 1 (pair sets searched by second glyph) and format 2 (2x2 class matrix cell of (class1(glyph1), class2(glyph2)) for covered first glyphs), CursivePos (exit anchor of the first, entry anchor of the second glyph, NULL offsets = no connection), MarkBasePos (base anchor of the mark's class + the mark's own anchor; NULL base anchor = none), for every glyph id, class value, anchor and value field and every query pair; through hook H8 the application kernels of gpos.rs: the candidate (base, mark) and (mark, mark) pairs offered over runs of 4 (mark-to-base) and 3 (mark-to-mark; ligature flags in the thorough tier) glyphs for every mark pattern and ligature component number (a mark is only offered the nearest preceding non-mark; mark-to-mark only inside one run of marks and only for the same component or a ligature), cursivepos (the FIRST glyph is attached to the second with the lookup's RIGHT_TO_LEFT bit, entry anchor of the second and exit anchor of the first), pairpos (value record 1 -> first glyph, 2 -> second; xAdvance into kerning, placements into a Distance) and markligpos (the component record is chosen by the MARK's ligature component number; out-of-range components attach nothing).",
         "Outside: gpos::apply / gpos_apply_lookup themselves (the lookup cache: Rc'd enum, 20 min no answer), lookup-flag filtering of pairs (find_first/find_next are decided under C04), context positioning, variation deltas in Adjust::apply, cursive chains and pen arithmetic in glyph_positions (14 GB out of memory). Stubs: ReadScope::read_cache -> uncached read, RandomState::new -> constant (modules c05_pos, c05_apply). "
         "The kern format 2 oracle follows the crate's documented reading of the Microsoft text; Apple/HarfBuzz add the array offset into the left class values (DESIGN.md section 7).",
         "DESIGN.md section 6, C05", TECH_KANI),
